@@ -62,14 +62,22 @@ def check(ctx):
     rets = [n for n in own_nodes(fe.node) if isinstance(n, ast.Return)]
     okb = False
     if len(rets) == 1 and isinstance(rets[0].value, ast.Tuple) and len(rets[0].value.elts) == 2:
-        c = rets[0].value.elts[1]
+        from ..dataflow import expand as _expand
+        c = _expand(fe.node, rets[0].value.elts[1])           # through a temporary (`is_boundary = counts == 1`)
         if isinstance(c, ast.Compare) and isinstance(c.comparators[0], ast.Constant):
             v = c.comparators[0].value
             okb = (isinstance(c.ops[0], ast.Eq) and v == 1) or (isinstance(c.ops[0], ast.Lt) and v == 2) or (isinstance(c.ops[0], ast.LtE) and v == 1)
     ctx.ob("R07.2", "boundary edge <=> exactly one incident triangle (predicate on counts in {1,2})", okb,
            detail=[norm(r) for r in rets], where=fe.fq, construct="boundary predicate", message="boundary predicate is not `count == 1`",
            consequence="interior edges are classified as boundary (or vice versa): wrong terminal lengths and boundary conditions")
-    tri = [norm(n) for n in ast.walk(fe.node) if isinstance(n, (ast.List,)) and all(isinstance(e, ast.Tuple) for e in n.elts) and len(n.elts) == 3]
+    tri = [norm(n) for n in ast.walk(fe.node) if isinstance(n, (ast.List, ast.Tuple)) and n.elts and all(isinstance(e, (ast.Tuple, ast.List)) for e in n.elts) and len(n.elts) == 3]
+    # ... or a module-level table of the sides that the function iterates over
+    from ..smallstep import module_constants as _mc
+    used = {x.id for x in ast.walk(fe.node) if isinstance(x, ast.Name)}
+    for nm_, v_ in _mc(fe.module.tree).items():
+        if nm_ in used and isinstance(v_, (list, tuple)) and len(v_) == 3 and all(isinstance(p_, (list, tuple)) and len(p_) == 2 for p_ in v_):
+            tri.append(str([tuple(p_) for p_ in v_]))
+    tri = [t_.replace("[[", "[(").replace("]]", ")]").replace("], [", "), (").replace("((", "[(").replace("))", ")]") if t_.startswith(("[[", "((")) else t_ for t_ in tri]
     ctx.ob("R07.2", "the three sides (0,1),(1,2),(2,0) of every triangle are enumerated", tri == ["[(0, 1), (1, 2), (2, 0)]"], detail=tri,
            where=fe.fq, construct="triangle sides", message=f"sides enumerated: {tri}", consequence="an edge of every triangle is missing from the mesh")
     # edge geometry (same obligations as C03 R03.6, from EdgeMesh.from_mesh)
@@ -132,7 +140,9 @@ def check(ctx):
            where=fd.fq, construct="dual length branches", loc=loc(fd, fd.node), message=f"dual length branches: {by}",
            consequence="dual edge lengths are not the Voronoi face lengths: the Laplacian weights are wrong")
     fa = repo.func(UTIL, "make_adj_directed_tri_indices")
-    plus1 = any(norm(n.value).replace(" ", "") == "np.repeat(np.arange(1,elements.shape[0]+1),3)" for n in own_nodes(fa.node) if isinstance(n, ast.Assign))
+    from ..dataflow import expanded_text as _xt
+    plus1 = any(_xt(fa.node, n).replace(" ", "") == "np.repeat(np.arange(1,elements.shape[0]+1),3)" for n in own_nodes(fa.node)
+                if isinstance(n, ast.Call) and norm(n.func).endswith("repeat"))
     minus1 = any(isinstance(n, ast.Call) and norm(n.func).endswith(".append") and n.args and isinstance(n.args[0], ast.BinOp)
                  and isinstance(n.args[0].op, ast.Sub) and norm(n.args[0].right) == "1" for n in ast.walk(fd.node))
     ctx.ob("R07.3", "adjacency stores triangle index + 1; the reader subtracts 1", plus1 and minus1, detail={"writer+1": plus1, "reader-1": minus1},
